@@ -3,6 +3,10 @@ package main
 import (
 	"archive/tar"
 	"bytes"
+	"crypto/rand"
+	"crypto/rsa"
+	"crypto/x509"
+	"encoding/pem"
 	"fmt"
 	"io"
 	"os"
@@ -429,6 +433,7 @@ func c04(run *ev.Run, tier string) {
 			}
 		})
 	}
+	c04ApkAlignment(run)
 	run.Set("archives_checked", archives)
 	run.Set("archives_per_format", perFormat)
 	run.Set("dpkg_deb_runs", dpkgRuns)
@@ -469,4 +474,92 @@ func dpkgAccepts(run *ev.Run, c *gen.Case, raw []byte, p *dec.Package, signed bo
 	if p.DataTar != nil && lines != len(p.DataTar.Entries) {
 		run.Violate("C04/deb/dpkg-deb-entry-count", map[string]any{"case": c.Index, "dpkg": lines, "harness": len(p.DataTar.Entries)})
 	}
+}
+
+// genRSAKey writes a fresh unprotected PKCS#1 RSA key of the given size.
+func genRSAKey(dir string, bits int) (privPath string, pub *rsa.PublicKey, err error) {
+	k, err := rsa.GenerateKey(rand.Reader, bits)
+	if err != nil {
+		return "", nil, err
+	}
+	p := filepath.Join(dir, fmt.Sprintf("rsa%d.priv", bits))
+	b := pem.EncodeToMemory(&pem.Block{Type: "RSA PRIVATE KEY", Bytes: x509.MarshalPKCS1PrivateKey(k)})
+	if err := os.WriteFile(p, b, 0o600); err != nil {
+		return "", nil, err
+	}
+	return p, &k.PublicKey, nil
+}
+
+// c04ApkAlignment aims at the 512-byte boundaries of the apk segments: a
+// control segment whose last member ends exactly on a block boundary
+// (.PKGINFO or a script of 512*k bytes) and a signature of exactly 512 bytes
+// (RSA-4096).
+func c04ApkAlignment(run *ev.Run) {
+	dir := newWorkDir("c04-align")
+	defer removeWorkDir(dir)
+	key4096, _, err := genRSAKey(dir, 4096)
+	if err != nil {
+		run.Inconclusive("cannot generate RSA-4096 key: " + err.Error())
+		return
+	}
+	payload := filepath.Join(dir, "f.txt")
+	_ = os.WriteFile(payload, []byte("hello\n"), 0o644)
+	mk := func() *gen.Spec {
+		s := &gen.Spec{Name: "align", Arch: "amd64", Version: "1.0.0", Maintainer: "A <a@example.com>", Description: "d", MTime: 1500000000}
+		s.Contents = []*gen.Content{{Src: payload, Dst: "/opt/align/f.txt"}}
+		return s
+	}
+	check := func(label string, s *gen.Spec, signed bool) {
+		res := buildYAML(s.YAML(), "apk")
+		if res.Err != nil || res.Panic != "" {
+			run.Violate("C04/apk/build-error", map[string]any{"variant": label, "error": fmt.Sprint(res.Err, res.Panic)})
+			return
+		}
+		p := dec.Decode("apk", res.Bytes, false)
+		run.Case("apk-align|"+label, true)
+		for _, pr := range structural("apk", res.Bytes, p, signed, false) {
+			run.Violate("C04/apk/"+pr.kind, map[string]any{"variant": label, "signed": signed, "detail": ev.Short(pr.detail, 500)})
+		}
+	}
+	// (a) .PKGINFO of exactly 512*k bytes, no scripts
+	s := mk()
+	res := buildYAML(s.YAML(), "apk")
+	if res.Err == nil {
+		p := dec.Decode("apk", res.Bytes, false)
+		l := len(p.Pkginfo)
+		for _, target := range []int{512, 1024} {
+			s2 := mk()
+			s2.Description = "d" + strings.Repeat("x", target-l%target)
+			if r2 := buildYAML(s2.YAML(), "apk"); r2.Err == nil {
+				p2 := dec.Decode("apk", r2.Bytes, false)
+				if len(p2.Pkginfo)%512 != 0 {
+					run.Inconclusive(fmt.Sprintf("alignment variant missed its target: .PKGINFO is %d bytes", len(p2.Pkginfo)))
+				}
+			}
+			check(fmt.Sprintf("pkginfo-%d", target), s2, false)
+			s3 := mk()
+			s3.Description = s2.Description
+			s3.APK.Sig.KeyFile = testKey("rsa_unprotected.priv")
+			check(fmt.Sprintf("pkginfo-%d-signed", target), s3, true)
+		}
+	}
+	// (b) last script ends on a block boundary
+	for _, size := range []int{511, 512, 513, 1024, 4096} {
+		sp := filepath.Join(dir, fmt.Sprintf("s%d.sh", size))
+		_ = os.WriteFile(sp, bytes.Repeat([]byte("#"), size), 0o755)
+		s := mk()
+		s.APK.PreUpgrade = sp
+		check(fmt.Sprintf("last-script-%d", size), s, false)
+		s = mk()
+		s.Scripts.PostInstall = sp
+		check(fmt.Sprintf("only-script-%d", size), s, false)
+	}
+	// (c) signature of exactly 512 bytes
+	s = mk()
+	s.APK.Sig.KeyFile = key4096
+	s.APK.Sig.KeyName = "k4096"
+	check("sig-rsa4096", s, true)
+	s = mk()
+	s.APK.Sig.KeyFile = testKey("rsa_unprotected.priv")
+	check("sig-testkey", s, true)
 }
